@@ -40,6 +40,10 @@ CLAIMED = {
   "text": "Bounded symbolic model checking of the real MinerManager/RefundManager on a real AccountDB: for one apply / add-stake / refund (arbitrary uint64 amount) / double-refund operation from each small registry pre-state, lookup by id, by id+kind and by account agree, an account controls at most one miner, stake = applied + added - refunded, locked + scheduled + liquid tokens are constant, and a rejected operation changes nothing.",
   "note": "Trusted: gosym and its models (encoding/json by contract, LevelDB cache as a map), z3. Per-operation lemma; histories by induction. Amounts other than the refund amount are enumerated choices.",
  },
+ "C01": {
+  "text": "Bounded symbolic model checking with Go map iteration order as a symbolic variable: the real ChangeAssets and the real refund payout are executed twice on equal states under independent arbitrary map orders and must agree on status, result text, balances and state root; Transactions.Less (the sort key of block execution) is shown asymmetric and transitive on all symbolic triples with distinct hashes.",
+  "note": "Trusted: gosym and its models, z3. One genuine order dependence (sender among its own targets) is a listed known finding. Amounts are enumerated; whole-block execution, goroutine timing and process-local caches are outside.",
+ },
 }
 PENDING = "check not built yet in this session (planned, see DESIGN.md section 5)"
 NA = {
